@@ -439,6 +439,17 @@ def run(tier):
     from . import c05
     chk.guard(c05.rule_adopt_write, chk, prog, 'C06.R5')
     chk.guard(rule_r6, chk, prog)
+    # nobody else publishes anything: a write of the output file outside
+    # the adoption sites (say, in a finally block of the driver) replaces
+    # the last accepted input by something older (shared with C01.R2)
+    from . import c01
+    sub01 = Check('C01', 'other', tier, [], [])
+    chk.guard(c01.rule_r2, sub01, prog)
+    Check.restrict(sub01, lambda wh, what: 'write_smtlib_to_file' in what)
+    chk.adopt('C06.R7', 'the output file is written at the adoption sites '
+              'only, with the adopted list: after an interrupt it holds the '
+              'last accepted input (shared with the write part of C01.R2)',
+              sub01)
     extra = None
     if tier == 'thorough':
         from .. import selftest
